@@ -7,15 +7,20 @@ def _grammar():
   from pyparsing import pyparsing_common
   # Integers, reals and reals in scientific notation as accepted by pyparsing_common.number, with two provisos:
   # a number ends where its text ends ('1.2.3' is not the two numbers 1.2 and .3) and a literal that
-  # overflows to infinity (1e999) is not a number a potential can be parametrised with.
+  # overflows to infinity (1e999, or an integer of 400 digits) is not a number a potential can be parametrised with.
+  # Digits are the ASCII digits ('\d' would also match those of other scripts, which float() converts).
   def convert(tokens):
     import re
     text = tokens[0]
-    value = int(text) if re.match(r"^[+-]?\d+$", text) else float(text)
-    if value in (float("inf"), float("-inf")):
+    value = int(text) if re.match(r"^[+-]?[0-9]+$", text) else float(text)
+    try:
+      out_of_range = float(value) in (float("inf"), float("-inf"))
+    except OverflowError:
+      out_of_range = True
+    if out_of_range:
       raise ParseException("number out of range: {}".format(text))
     return value
-  number = Regex(r"[+-]?(?:\d+\.\d*|\.\d+|\d+)(?:[eE][+-]?\d+)?(?![.0-9])").setParseAction(convert)
+  number = Regex(r"[+-]?(?:[0-9]+\.[0-9]*|\.[0-9]+|[0-9]+)(?:[eE][+-]?[0-9]+)?(?![.0-9])").setParseAction(convert)
   identifier = Combine(pyparsing_common.identifier+ZeroOrMore(Literal(".")+pyparsing_common.identifier))
 
   # multi_range
